@@ -161,10 +161,10 @@ struct Inst {
 }
 
 fn map_desc(name: &str) -> &'static MapDesc {
-    MAPS.iter().find(|m| m.name == name).unwrap()
+    all_maps().into_iter().find(|m| m.name == name).unwrap()
 }
 fn mem_desc(name: &str) -> &'static MemDesc {
-    MEMS.iter().find(|m| m.name == name).unwrap()
+    all_mems().into_iter().find(|m| m.name == name).unwrap()
 }
 
 fn intersects(a: &Range<usize>, b: &Range<usize>) -> bool {
@@ -490,6 +490,10 @@ impl Inst {
                                 let mut sig = self.bf_sig(i, "roundtrip");
                                 if let Val::Str(s) = &v {
                                     sig["nul"] = json!(s.contains(&0));
+                                    // the known finding F-C20-5 is exactly: accepted, and reads back as the
+                                    // prefix before the first NUL (anything else is a different defect)
+                                    let prefix: Vec<u8> = s.iter().cloned().take_while(|c| *c != 0).collect();
+                                    sig["truncated_at_first_nul"] = json!(s.contains(&0) && matches!(&back, Ok(Ok(Val::Str(b))) if *b == prefix));
                                 }
                                 let b = match &back { Ok(Ok(b)) => format!("ok {}", b.show()), _ => res3(&back) };
                                 cx.violation(self, sig, format!("write::<{}::{}>({}) then read = {b}", t[1], t[2], v.show()));
